@@ -1,4 +1,5 @@
 import XmlRsModel.XPath.Eval
+import XmlRsModel.XPath.Safe
 /-! Property C10: namespaces resolve per Namespaces in XML; name tests match expanded names.
     `inScope` (in-scope namespaces of an element from its own declarations and the inherited ones),
     `expandedName` and `nodeTest` are characterised: nearest declaration wins, the default namespace
@@ -350,11 +351,6 @@ theorem Alike.compare {d d' : XDoc} (h : Alike d d') : compare d' = compare d :=
 theorem Alike.langF {d d' : XDoc} (h : Alike d d') : langF d' = langF d := by
   funext c arg; simp only [XPath.langF, h.keys, h.lang]
 
-/-- is the test a name test with a local part (`l`, `p:l`)? -/
-def isNameTest : NodeTest → Bool
-  | .name _ => true
-  | _ => false
-
 theorem principal_ns (a : Axis) (h : a ≠ .namespace) : principal a ≠ .ns := by
   cases a <;> simp_all [principal]
 
@@ -387,9 +383,6 @@ theorem Alike.nodeTest {env env' : XPath.Env} (h : Alike env.doc env'.doc) (hns 
       | none => simp only [XPath.nodeTest, h.kind, hq, e2, Bool.false_and]
     · simp only [XPath.nodeTest, h.kind, hb, h.name k hk]
 
-/-- the functions that show a prefix: `name()` always, `local-name()` on a namespace node -/
-def showsPrefix (name : String) : Bool := name == "name" || name == "local-name"
-
 theorem Alike.applyFunc {env env' : XPath.Env} (h : Alike env.doc env'.doc) (c : Ctx) (name : String) (args : List Value)
     (hs : showsPrefix name = false) : applyFunc env' c name args = applyFunc env c name args := by
   have h1 : name ≠ "name" := fun e => by simp [showsPrefix, e] at hs
@@ -397,28 +390,6 @@ theorem Alike.applyFunc {env env' : XPath.Env} (h : Alike env.doc env'.doc) (c :
   unfold XPath.applyFunc
   simp only [h.toStr, h.toNum, h.sval, h.langF, h.dt, h.uri]
   split <;> first | rfl | exact absurd rfl h1 | exact absurd rfl h2
-
-/-! which expressions cannot see a prefix of the document -/
-mutual
-def safeE : Expr → Bool
-  | .bin _ a b => safeE a && safeE b
-  | .neg e => safeE e
-  | .lit _ => true
-  | .num _ => true
-  | .var _ => true
-  | .call f args => !showsPrefix (String.ofList f.loc) && safeEs args
-  | .filter e ps => safeE e && safeEs ps
-  | .path (some e) _ steps => safeE e && safeSs steps
-  | .path none _ steps => safeSs steps
-def safeEs : List Expr → Bool
-  | [] => true
-  | e :: r => safeE e && safeEs r
-def safeS : Step → Bool
-  | .mk a t ps => !(a == .namespace && isNameTest t) && safeEs ps
-def safeSs : List Step → Bool
-  | [] => true
-  | s :: r => safeS s && safeSs r
-end
 
 theorem evalStepOn_congr {env env' : XPath.Env} (st : Step) (hst : ∀ k, evalStep env' st k = evalStep env st k) :
     ∀ ks, evalStepOn env' st ks = evalStepOn env st ks
